@@ -269,15 +269,19 @@ func (obj *Package) Import(pkg *Package, varName string) {
 		pkg.mu.Unlock()
 	}()
 	name := strings.ToLower(varName)
-	if vv := pkg.vars[name]; vv != nil {
-		obj.vars[name] = vv
-		obj.Imports[name] = &Import{Pkg: pkg, Name: name}
-	} else if fi := pkg.funcs[name]; fi != nil {
-		obj.funcs[name] = fi
-		obj.Imports[name] = &Import{Pkg: pkg, Name: name}
-	} else {
+	// The symbol is imported, as variable and as function if it is both.
+	vv := pkg.vars[name]
+	fi := pkg.funcs[name]
+	if vv == nil && fi == nil {
 		PackagePanic(NewScope(), 0, obj, "%s is not a variable or function in %s", name, pkg)
 	}
+	if vv != nil {
+		obj.vars[name] = vv
+	}
+	if fi != nil {
+		obj.funcs[name] = fi
+	}
+	obj.Imports[name] = &Import{Pkg: pkg, Name: name}
 }
 
 // Set a variable.
